@@ -54,6 +54,22 @@ validations:
               maxCount: 0
 `
 
+// special characters in texts that travel to the outputs (percent signs, quotes, non-ASCII)
+const PoolProfileSpecial = `#%Validation Profile 1.0
+profile: Pool Special 100% (%d %s %v) é
+prefixes:
+  ex: http://example.org/ns#
+violation:
+  - pct
+validations:
+  pct:
+    targetClass: ex.Thing
+    message: Names must be 100% fine, not %d or %s or %v - naïve 'quoted' text
+    propertyConstraints:
+      ex.name:
+        pattern: "^[a-z%]+$"
+`
+
 const PoolProfileBroken = `#%Validation Profile 1.0
 profile: Broken
 violation:
@@ -77,6 +93,11 @@ const PoolDataBad = `{"@graph":[
   "http://example.org/ns#child":{"@id":"http://example.org/d#c"}},
  {"@id":"http://example.org/d#c","@type":["http://example.org/ns#Thing","http://example.org/ns#Other"],"http://example.org/ns#name":["x","a longer name"]},
  {"@id":"http://example.org/d#d","@type":"http://example.org/ns#Thing"}
+]}`
+
+const PoolDataSpecial = `{"@graph":[
+ {"@id":"http://example.org/d#my%20api.raml","@type":"http://example.org/ns#Thing","http://example.org/ns#name":["100%","50%d off","naïve"]},
+ {"@id":"http://example.org/d#b","@type":["http://example.org/ns#Thing"],"http://example.org/ns#name":"ok%"}
 ]}`
 
 const PoolDataEmpty = `{"@graph":[]}`
